@@ -256,6 +256,9 @@ struct Setup {
     sequencer_start: u64,
     rollup_start: u64,
     look_ahead: u64,
+    /// the session starts (conductor restart) with the soft commitment this many blocks ahead of
+    /// the firm one; those blocks were executed by an earlier session
+    soft_lead: u64,
 }
 
 #[derive(Clone, Debug, PartialEq, Eq, Hash)]
@@ -344,11 +347,12 @@ impl ExecModel {
             clause: clause.into(),
             signature: signature.into(),
             detail: format!(
-                "{} start=({},{}) look_ahead={}: {detail}",
+                "{} start=({},{}) look_ahead={} soft_lead={}: {detail}",
                 commit_level_name(self.setup.level),
                 self.setup.sequencer_start,
                 self.setup.rollup_start,
-                self.setup.look_ahead
+                self.setup.look_ahead,
+                self.setup.soft_lead
             ),
         }
     }
@@ -363,7 +367,18 @@ impl ExecModel {
             *r = Rollup::default();
             r.blocks.insert(genesis_number, (genesis_hash.clone(), "pre-genesis".into(), String::new()));
             r.firm = genesis_number;
-            r.soft = genesis_number;
+            // blocks executed by an earlier session
+            let mut parent = genesis_hash.clone();
+            let mut soft_meta = meta(genesis_number, &genesis_hash, "pre-genesis", "");
+            for k in 0..self.setup.soft_lead {
+                let number = genesis_number + 1 + k;
+                let seq = self.seq_hash(u32::try_from(k).unwrap());
+                let hash = block_hash_of(number, &seq, &parent);
+                r.blocks.insert(number, (hash.clone(), parent.clone(), seq.clone()));
+                soft_meta = meta(number, &hash, &parent, &seq);
+                parent = hash;
+            }
+            r.soft = genesis_number + self.setup.soft_lead;
             r.session = Some(raw::ExecutionSession {
                 session_id: "verif-session".into(),
                 execution_session_parameters: Some(raw::ExecutionSessionParameters {
@@ -377,7 +392,7 @@ impl ExecModel {
                 }),
                 commitment_state: Some(raw::CommitmentState {
                     firm_executed_block_metadata: Some(meta(genesis_number, &genesis_hash, "pre-genesis", "")),
-                    soft_executed_block_metadata: Some(meta(genesis_number, &genesis_hash, "pre-genesis", "")),
+                    soft_executed_block_metadata: Some(soft_meta),
                     lowest_celestia_search_height: 1,
                 }),
             });
@@ -428,7 +443,7 @@ impl ExecModel {
             let mut firm_queue: Vec<u32> = Vec::new();
             let mut soft_cache_content: Vec<u64> = Vec::new();
             let mut firm_cache_content: Vec<u64> = Vec::new();
-            let mut soft_next = 0u32;
+            let mut soft_next = u32::try_from(setup.soft_lead).unwrap();
             let mut firm_next = 0u32;
             let mut stopped = false;
             let mut deviations = 0u32;
@@ -500,9 +515,10 @@ impl ExecModel {
             }
             // ------------------------------------------------------------------ oracle on the rollup's log
             let r = w.rollup.0.lock().unwrap();
-            let mut executed: Vec<u32> = Vec::new();
-            let mut last_hash = genesis_hash.clone();
-            let (mut firm_n, mut soft_n) = (genesis_number, genesis_number);
+            let lead = u32::try_from(setup.soft_lead).unwrap();
+            let mut executed: Vec<u32> = (0..lead).collect();
+            let mut last_hash = r.blocks.get(&(genesis_number + setup.soft_lead)).map(|b| b.0.clone()).unwrap_or_else(|| genesis_hash.clone());
+            let (mut firm_n, mut soft_n) = (genesis_number, genesis_number + setup.soft_lead);
             for call in &r.log {
                 match call {
                     Call::Execute {
@@ -663,7 +679,7 @@ impl Model for ExecModel {
         let past = st
             .hist
             .iter()
-            .scan((0u32, 0u32), |(s, f), e| {
+            .scan((u32::try_from(self.setup.soft_lead).unwrap(), 0u32), |(s, f), e| {
                 let d = match e {
                     Ev::SoftArrive(k) => {
                         let d = *k != *s;
@@ -750,8 +766,21 @@ fn setups(thorough: bool) -> Vec<Setup> {
                     sequencer_start,
                     rollup_start,
                     look_ahead,
+                    soft_lead: 0,
                 });
             }
+        }
+    }
+    // restarts with the soft commitment ahead of the firm one (only meaningful with both streams)
+    for soft_lead in if thorough { vec![1u64, 2, 3] } else { vec![2] } {
+        for look_ahead in if thorough { vec![4u64, 2] } else { vec![4] } {
+            v.push(Setup {
+                level: CommitLevel::SoftAndFirm,
+                sequencer_start: 10,
+                rollup_start: 1,
+                look_ahead,
+                soft_lead,
+            });
         }
     }
     v
@@ -773,6 +802,7 @@ fn verif_c10() {
             sequencer_start: g("sequencer_start"),
             rollup_start: g("rollup_start"),
             look_ahead: g("look_ahead"),
+            soft_lead: case.get("soft_lead").and_then(J::as_int).unwrap_or(0) as u64,
         });
         MAX_DEVIATIONS.store(99, std::sync::atomic::Ordering::Relaxed);
         let hist: Vec<Ev> = case.get("history").and_then(J::as_arr).unwrap().iter().map(|j| ev_parse(j.as_str().unwrap())).collect();
@@ -796,7 +826,7 @@ fn verif_c10() {
         "BFS over every interleaving of <= {depth} events from {{soft reader delivers block k, firm reader delivers block k \
          (k in a window of {WINDOW} heights; any k that is not the stream's next in-order block is a deviation: duplicate, stale, \
          skip-ahead; at most {deviations} deviations per history), executor takes the next soft block (only while the real \
-         is_spread_too_large() is false), executor takes the next firm block}} for commit levels and session offsets {:?}; each \
+         is_spread_too_large() is false), executor takes the next firm block}} for commit levels, session offsets, look-aheads and restarts with the soft commitment ahead of the firm one {:?}; each \
          state is the history replayed on a fresh real Initialized executor (real BlockCache x2, execute_soft / execute_firm, \
          real gRPC Client) against a fake rollup that executes on top of the named parent and logs every RPC; oracle on the log: \
          one ExecuteBlock per height, increasing, on the previous block; commitments monotone, firm <= soft, each naming the \
@@ -816,11 +846,12 @@ fn verif_c10() {
             },
         );
         println!(
-            "NOTE C10 {} start=({},{}) look_ahead={} depth={depth}: states={} transitions={} skipped={} outcomes={} violations={}",
+            "NOTE C10 {} start=({},{}) look_ahead={} soft_lead={} depth={depth}: states={} transitions={} skipped={} outcomes={} violations={}",
             commit_level_name(setup.level),
             setup.sequencer_start,
             setup.rollup_start,
             setup.look_ahead,
+            setup.soft_lead,
             out.states,
             out.transitions,
             out.skipped,
@@ -844,6 +875,7 @@ fn verif_c10() {
                     .with("sequencer_start", J::i(setup.sequencer_start))
                     .with("rollup_start", J::i(setup.rollup_start))
                     .with("look_ahead", J::i(setup.look_ahead))
+                    .with("soft_lead", J::i(setup.soft_lead))
                     .with("history", J::arr(v.history.iter().map(ev_json))),
             });
         }
